@@ -171,4 +171,9 @@ class CachedAmpPreProcessor(BasePreProcessor):
         super().__init__(*args, **kwargs)
 
     def __call__(self, x):
-        return {"p4": x["p4"]}
+        p4 = x["p4"]
+        # the same charge-conjugation transform as the default preprocessor
+        if self.kwargs.get("cp_trans", False):
+            charges = x.get("extra", {}).get("charge_conjugation", None)
+            p4 = {k: parity_trans(v, charges) for k, v in p4.items()}
+        return {"p4": p4}
